@@ -544,9 +544,81 @@ def run_tower_case(case):
     return out
 
 
+
+COPY_SRC = '''\
+import functools
+
+@profile
+def handle(x):
+    y = x + 1
+    return y
+
+@profile
+def stream(x):
+    yield x
+    yield x + 1
+
+@profile
+async def fetch(x):
+    y = x * 2
+    return y
+
+class Service:
+    @profile
+    def method(self, x):
+        return x
+
+    @profile
+    @staticmethod
+    def sm(x):
+        return x
+
+    @profile
+    @classmethod
+    def cm(cls, x):
+        return x
+
+    @profile
+    @property
+    def prop(self):
+        return 7
+
+bound = profile(functools.partial(handle.__wrapped__ if hasattr(handle, '__wrapped__') else handle, 3))
+'''
+
+
+def run_copies_case(case):
+    """the same decorated source text in two (or three) files — a copied or vendored module: each copy's callables are profiled for themselves"""
+    prof = line_profiler.LineProfiler()
+    mods = []
+    for i in range(case['copies']):
+        fname = 'copy_v%d/handlers.py' % i
+        ns = {'profile': prof, '__name__': 'handlers_v%d' % i}
+        exec(compile(COPY_SRC, fname, 'exec'), ns)
+        mods.append((fname, ns))
+    want = {}
+    for (fname, ns), n in zip(mods, case['calls']):
+        svc = ns['Service']()
+        for _ in range(n):
+            ns['handle'](1)
+            list(ns['stream'](1))
+            drive_awaitable(ns['fetch'](2))
+            svc.method(1)
+            ns['Service'].sm(1)
+            ns['Service'].cm(1)
+            svc.prop
+        for name in ('handle', 'stream', 'fetch', 'method', 'sm', 'cm', 'prop'):
+            want['%s:%s' % (fname, name)] = n
+    got = {}
+    for (fname, first, name), entries in prof.get_stats().timings.items():
+        if entries:
+            # executions = hits of the function's last recorded line (return / last yield)
+            got['%s:%s' % (fname, name)] = max(entries)[1]
+    return {'executions': want, 'reported': got, 'count_after': prof.enable_count}
+
 def main():
     payload = json.load(sys.stdin)
-    res = {'gens': [], 'towers': []}
+    res = {'gens': [], 'towers': [], 'copies': []}
     import warnings
     warnings.simplefilter('ignore')
     for c in payload.get('gens', []):
@@ -561,6 +633,12 @@ def main():
         except Exception:
             import traceback
             res['towers'].append({'error': traceback.format_exc()})
+    for c in payload.get('copies', []):
+        try:
+            res['copies'].append(run_copies_case(c))
+        except Exception:
+            import traceback
+            res['copies'].append({'error': traceback.format_exc()})
     sys.stdout.write('\n{"lpverif": %s}\n' % json.dumps(res))
 
 
